@@ -23,6 +23,7 @@ class ModelSim final : public Engine {
 
   bool Is(const char* p) const { return focus == p; }
   std::optional<EntityUID> Target(int64_t i) const { const auto l = ListOf(*m); if (l.empty()) return std::nullopt; return l[static_cast<size_t>(i) % l.size()]; }
+  std::vector<std::string> AliasesOf() const { std::vector<std::string> v; for (const auto uid : m->List()) v.push_back(m->GetRS(uid).alias); return v; }
   std::vector<EntityUID> OfKind(std::function<bool(CstType)> pred) const { std::vector<EntityUID> v; for (const auto uid : m->List()) if (pred(m->GetRS(uid).type)) v.push_back(uid); return v; }
 
   std::string GenDef(Ctx& c, CstType type) {
@@ -139,7 +140,7 @@ public:
   std::vector<std::string> RealComponents() const override { return { "ccl::semantic::RSModel / rsValuesFacet / rsCalculationFacet / InterpretationStorage / RSCore", "rslang Interpreter / ASTInterpreter / TypeAuditor / StructuredData / SDCompact", "JSON (de)serialisation of models" }; }
   std::vector<std::string> StubComponents() const override { return { "identifier entropy (hook H1)", "lazy-set cache limit (hook H2) and iteration limit (hook H3) chosen per run", "document store with storage faults on saved data tables", "text processor stub" }; }
   std::string Rule(const std::string& f) const override {
-    std::string s = "one evaluation = one seeded run: 8-40 ops on one RSModel (Emplace, InsertCopy(record), SetExpressionFor, SetAliasFor +/- substitution, Erase; AddBasicElement, SetBasicText with new size / same size different keys / same content, SetStructureData compatible / incompatible, ResetDataFor; Calculate in any order, RecalculateAll; evaluation of constituents and free expressions through an Interpreter over the model's contexts; Checkpoint, CrashRestart with optional damage of a saved data table), cache limit, iteration limit and identifier policy drawn per run. ";
+    std::string s = "one evaluation = one seeded run: 8-40 ops on one RSModel (Emplace, InsertCopy(record), InsertCopy from another schema single / bulk / bulk records, MoveBefore, ResetAliases, term / text definition / convention / term form edits, SetExpressionFor, SetAliasFor +/- substitution, Erase; AddBasicElement, SetBasicText with new size / same size different keys / same content, SetStructureData compatible / incompatible, ResetDataFor; Calculate in any order, RecalculateAll; evaluation of constituents and free expressions through an Interpreter over the model's contexts; Checkpoint, CrashRestart with optional damage of a saved data table), cache limit, iteration limit and identifier policy drawn per run. ";
     if (f == "C11") s += "Oracle after every observed step: the model is rebuilt from its records, base interpretations and structure data, recalculated from scratch, and every constituent that reports a calculated value must report the same value; structure data must fit the current typification and base sets.";
     else if (f == "C02") s += "Oracle at every evaluation of a VERIFIED constituent or accepted expression over deep-compatible data: no crash / UB / escaped exception, failure implies a critical error that is not 'unknown evaluation error', a produced value is a truth value iff the type is LOGIC and otherwise has the reported structure (harness's own recursive check).";
     else if (f == "C16") s += "Oracle at every checkpoint: Unpack(Pack(v,t),t)==v for every stored value; exhaustive single-cell / single-row damage of each packed table of <= 40 cells must unpack to nothing or to a value of the right shape without faulting; reloaded model holds equal data.";
